@@ -66,6 +66,24 @@ MOT = movable()
 ALPHABET["set"] = msg("set", MOT, 1)
 
 
+def _status(I_):
+    return Opaque(I_.w.fresh("status"), {"token": "status", "truth": True, "isinstance_default": False, "hasattr": {},
+                                         "methods": {"add_callback": lambda I2, o2, a2, k2: None}})
+
+
+FLY = Opaque("fly", {"token": "dev", "truth": True, "isinstance_default": False, "isinstance": {"Flyable": True, "Collectable": True},
+                     "hasattr": {"pause": False, "resume": False, "stop": False, "name": True}, "attrs": {"name": "fly", "parent": None},
+                     "methods": {"kickoff": lambda I_, o, a, k: _status(I_), "complete": lambda I_, o, a, k: _status(I_)}})
+SIG = Opaque("sig", {"token": "dev", "truth": True, "isinstance_default": False, "isinstance": {"Subscribable": True},
+                     "hasattr": {"pause": False, "resume": False, "stop": False, "name": True}, "attrs": {"name": "sig", "parent": None}, "methods": {}})
+CALLBACK = Opaque("callback", {"token": "callback", "truth": True, "isinstance_default": False, "hasattr": {}})
+ALPHABET["kickoff"] = msg("kickoff", FLY)
+ALPHABET["collect"] = msg("collect", FLY)
+ALPHABET["monitor"] = msg("monitor", SIG)
+ALPHABET["unmonitor"] = msg("unmonitor", SIG)
+ALPHABET["subscribe"] = msg("subscribe", None, CALLBACK, "all")
+
+
 def _none():
     return None
     yield
